@@ -682,6 +682,17 @@ V("c16-twin-rename", "C16", "-", "dask_array/_core_utils.py", None, None, twin=T
   ("dask_array/_core_utils.py", "            if limit is None:\n                limit = parsed\n            elif parsed != limit:\n                raise ValueError(f\"Only one consistent value of limit or chunk is allowed. Used {parsed} != {limit}\")", "            if limit is None:\n                limit = nbytes\n            elif nbytes != limit:\n                raise ValueError(f\"Only one consistent value of limit or chunk is allowed. Used {nbytes} != {limit}\")"),
 ])
 
+_C16_NEG = '    if any(\n        (isinstance(c, Number) and c < 0) or (isinstance(c, (tuple, list)) and any(isinstance(x, Number) and x < 0 for x in c))\n        for c in chunks\n    ):\n        raise ValueError(f"Chunk sizes must be non-negative (use -1 or None for a full axis). Got chunks={chunks}")\n'
+V("c16-negative-size-refusal-dropped", "C16", "R16.3", "dask_array/_core_utils.py", _C16_NEG, "", expect="negative-size refusal")
+V("c16-negative-size-refusal-scalars-only", "C16", "R16.1", "dask_array/_core_utils.py",
+  "        (isinstance(c, Number) and c < 0) or (isinstance(c, (tuple, list)) and any(isinstance(x, Number) and x < 0 for x in c))\n", "        (isinstance(c, Number) and c < 0)\n", expect="normalize_chunks")
+V("c16-negative-size-refusal-only-without-shape", "C16", "R16.1", "dask_array/_core_utils.py",
+  "    if any(\n        (isinstance(c, Number) and c < 0) or", "    if shape is None and any(\n        (isinstance(c, Number) and c < 0) or", expect="normalize_chunks")
+V("c16-twin-negative-refusal-in-helper", "C16", "-", "dask_array/_core_utils.py", None, None, twin=True, edits=[
+  ("dask_array/_core_utils.py", _C16_NEG, "    _refuse_negative_sizes(chunks)\n"),
+  ("dask_array/_core_utils.py", "def normalize_chunks(", "def _refuse_negative_sizes(chunks):\n" + _C16_NEG + "\n\ndef normalize_chunks("),
+])
+
 V("c02-detector-uses-forward-permutation", "C02", "R02.6", "dask_array/_blockwise.py",
   "        inv = expr._inverse_axes\n        dep_mapping = tuple(parent_mapping[inv[i]] for i in range(len(inv)))", "        dep_mapping = tuple(parent_mapping[ax] for ax in expr.axes)", expect="_symbolic_mapping")
 V("c02-twin-detector-local-rename", "C02", "-", "dask_array/_blockwise.py",
